@@ -62,13 +62,20 @@ def stimuli(tier, seed, ctx):
         n = rnd.choice([1, 2, 2, 3, 3, 3, 4])
         cfg = _rand_cfg(rnd, n)
         # the first evaluation of a combinational block raises, or yields no valid output (UNDEF)
-        cbfail = rnd.choice(['raise', 'undef']) if rnd.random() < 0.15 else False
+        # ... or an FSM whose output in its initial state is UNDEF: it cannot be initialised
+        cbfail = rnd.choice(['raise', 'undef', 'fsm_undef']) if rnd.random() < 0.18 else False
+        # an external event right after the blocks were started (before any initialisation), and
+        # an application that declares persistent blocks but provides no storage
+        cands = [b for b in range(1, n + 1) if not cfg[b - 1].get('lib')]
+        first = rnd.choice(cands) if cands and rnd.random() < 0.25 else 0
+        nostorage = rnd.random() < 0.15
         cleanup = rnd.random() < 0.4
         perms = list(itertools.permutations(range(1, n + 1)))
         if n == 4:
             perms = rnd.sample(perms, 4)
         for p in perms:
             out.append({'cfg': cfg, 'order': list(p), 'cbfail': cbfail, 'cleanup': cleanup,
+                        'first': first, 'nostorage': nostorage,
                         # a second wait_init() while a slow clean-up of the stopped / failed
                         # simulation is still in progress
                         'late': rnd.random() < 0.3})
@@ -156,7 +163,8 @@ def execute(stim):
         async def main():
             circuit = edzed.get_circuit()
             storage = {}
-            circuit.set_persistent_data(storage)
+            if not stim.get('nostorage'):
+                circuit.set_persistent_data(storage)
             blocks = {}
             for b in order:
                 c = cfg[b - 1]
@@ -176,9 +184,20 @@ def execute(stim):
                 if c['restore'] != 'none':
                     storage[blocks[b].key] = 'S'
 
+            if stim['cbfail'] == 'fsm_undef':
+                class Hold(edzed.FSM):
+                    STATES = ['idle', 'got']
+                    EVENTS = [('sample', None, 'got')]
+
+                    def calc_output(self):          # UNDEF = "leave the output as it is"
+                        return 1 if self.state == 'got' else edzed.UNDEF
+                Hold('hold')
+
             def fn(x):
                 if stim['cbfail'] == 'undef':
                     return edzed.UNDEF
+                if stim['cbfail'] == 'fsm_undef':
+                    return 1
                 if stim['cbfail']:
                     raise RuntimeError('scripted calc_output failure')
                 return 1
@@ -195,6 +214,12 @@ def execute(stim):
                 SlowStop('slowstop', stop_timeout=20 * TICK)
             t0 = loop.time()
             task = asyncio.create_task(circuit.run_forever())
+            if stim.get('first'):
+                await asyncio.sleep(0)      # the blocks were started, nothing is initialised yet
+                try:
+                    edzed.ExtEvent(blocks[stim['first']]).send(0)
+                except Exception as err:
+                    lines.append({'ev': 'call', 'b': stim['first'], 'r': 'failed:' + type(err).__name__})
             try:
                 await circuit.wait_init()
                 ok = True
@@ -232,7 +257,12 @@ def execute(stim):
     vt.run(factory)
     # records after wait_init() returned belong to the clean-up, not to the start-up
     cut = next(i for i, e in enumerate(lines) if e['ev'] == 'wait')
-    hdr = {'cfg': cfg, 'order': order, 'cbfail': bool(stim['cbfail']), 'cleanup': bool(stim['cleanup'])}
+    hcfg = cfg
+    if stim.get('nostorage'):
+        # without a storage nothing is restored (and nothing else changes)
+        hcfg = [dict(c, restore='none') for c in cfg]
+    hdr = {'cfg': hcfg, 'order': order, 'cbfail': bool(stim['cbfail']), 'cleanup': bool(stim['cleanup']),
+           'first': stim.get('first', 0)}
     return {'hdr': hdr, 'ev': lines[:cut + 1] + late}
 
 
